@@ -108,6 +108,7 @@ def gen_knobs(rng, tier):
         "n_ops": rng.randint(4, 40),
         "w_save": rng.choice([3, 5]), "w_get": rng.choice([4, 8]), "w_export": rng.choice([1, 2, 3]),
         "w_restart": rng.choice([0, 1, 2]), "w_misc": rng.choice([0, 1]),
+        "tmp_fs": rng.choice(["scratch", "other"]),      # the temporary directory on the workspace's file system, or on another one
         "fault_budget": rng.randint(1, 3) if faulted else 0,
         "fault_kinds": sorted(rng.sample(["write_enospc", "write_torn", "read_eio"], rng.randint(1, 3))) if faulted else [],
     }
@@ -459,6 +460,9 @@ def invivo_signature(v):
 
 def execute(trace):
     k = trace["knobs"]
+    from sim.core import select_tmp
+    select_tmp(k.get("tmp_fs", "scratch") if isinstance(k.get("run_index", 0), int) and not k["population"].startswith("dict") else
+               ("other" if k.get("n_ops", 0) % 2 else "scratch"))
     if k["population"] == "invivo":
         return execute_invivo(trace)
     if k["population"].startswith("dict"):
